@@ -149,6 +149,9 @@ def setHeader (h : Dic) (name value : Bytes) : Dic :=
   let cname := capitalized name
   if value.isEmpty then dicRemove h cname else dicSet h cname value
 
+/-- how `readHeaders` stores a received header line: `_headers[capitalized(name)] = value`, an empty value included -/
+def storeHeader (h : Dic) (name value : Bytes) : Dic := dicSet h (capitalized name) value
+
 /-- `HttpMessage::header` (empty when absent) -/
 def header (h : Dic) (name : Bytes) : Bytes := (dicGet h (capitalized name)).getD []
 
@@ -270,7 +273,12 @@ def readHeadersLoop : Nat → Inp → Dic → Bytes → Bytes → Dic × Inp
     | (some line, i') =>
       if line = [13] then (h, i')
       else if cIsSpace (line.headD 0) then
-        readHeadersLoop f i' (setHeader h name (value ++ trimmed line)) name value
+        -- continuation line (obs-fold): joined to the value with one blank; a blank continuation changes nothing
+        let more := trimmed line
+        if more.isEmpty then readHeadersLoop f i' h name value
+        else
+          let value' := if value.isEmpty then more else value ++ [32] ++ more
+          readHeadersLoop f i' (storeHeader h name value') name value'
       else
         let l := trimmed line
         match indexOfByte 58 l with
@@ -278,7 +286,7 @@ def readHeadersLoop : Nat → Inp → Dic → Bytes → Bytes → Dic × Inp
         | some k =>
           let name' := l.take k
           let value' := trimmed (l.drop (k + 1))
-          readHeadersLoop f i' (setHeader h name' value') name' value'
+          readHeadersLoop f i' (storeHeader h name' value') name' value'
 
 def readHeaders (i : Inp) (h : Dic) : Dic × Inp := readHeadersLoop (i.data.length + 1) i h [] []
 
@@ -331,6 +339,16 @@ def readChunkedLoop (rblk : Nat) : Nat → Inp → Nat → List Bytes → List B
         else if m = 0 then (acc', i3)
         else readChunkedLoop rblk f i3 size' acc'
 
+/-- `String::split(char)` with a one-byte separator -/
+def splitByte (sep : UInt8) (s : Bytes) : List Bytes :=
+  let r := s.foldr (fun c (acc : Bytes × List Bytes) =>
+      if c == sep then ([], acc.1 :: acc.2) else (c :: acc.1, acc.2)) ([], [])
+  r.1 :: r.2
+
+/-- `readBody`: the body is chunked when the last transfer coding is `chunked`, names compared without regard to case -/
+def teChunked (te : Bytes) : Bool :=
+  trimmed ((splitByte 44 (lowerAscii te)).getLast?.getD []) == sChunked
+
 /-- the Content-Length check of `readBody`: 1 to 10 decimal digits whose value fits an `int` -/
 def clValid (cl : Bytes) : Bool :=
   decide (1 ≤ cl.length ∧ cl.length ≤ 10) && cl.all (fun c => decide (48 ≤ c ∧ c ≤ 57)) && decide (digitLoop cl 0 ≤ 2147483647)
@@ -338,7 +356,7 @@ def clValid (cl : Bytes) : Bool :=
 /-- `HttpMessage::readBody` -/
 def readBodyWith (rblk : Nat) (h : Dic) (i : Inp) : Bytes × Inp :=
   let cl := header h sContentLength
-  let chunked := header h sTransferEncoding == sChunked
+  let chunked := teChunked (header h sTransferEncoding)
   if hasHeader h sContentLength ∧ ¬ clValid cl then
     -- a length with a sign, other characters or too many digits: the framing is unknown, the connection is given up
     ([], { i with closed := true })
@@ -347,7 +365,7 @@ def readBodyWith (rblk : Nat) (h : Dic) (i : Inp) : Bytes × Inp :=
     let r := readChunkedLoop rblk (i.data.length + 1) i 0 []
     (r.1.reverse.flatten, r.2)
   else if hasHeader h sContentLength then
-    if cl = [48] then ([], i)
+    if atoi cl = 0 then ([], i)            -- "0", "00", ...: no body
     else
       let r := readLenLoop rblk (i.data.length + 1) i (atoi cl) []
       (r.1.reverse.flatten, r.2)
@@ -368,12 +386,6 @@ def rmDotDot : Bytes → Bytes
   | 46 :: 46 :: t => rmDotDot t
   | c :: t => c :: rmDotDot t
   | [] => []
-
-/-- `String::split(char)` with a one-byte separator -/
-def splitByte (sep : UInt8) (s : Bytes) : List Bytes :=
-  let r := s.foldr (fun c (acc : Bytes × List Bytes) =>
-      if c == sep then ([], acc.1 :: acc.2) else (c :: acc.1, acc.2)) ([], [])
-  r.1 :: r.2
 
 /-- `Url::parseQuery` -/
 def parseQuery (q : Bytes) : Dic :=
